@@ -28,6 +28,13 @@ namespace bloch::runtime {
     static std::mt19937 rng{std::random_device{}()};
     // TODO(REFACTOR): inject RNG via a Strategy/adapter so simulator is
     // deterministic under test and replaceable by other random sources.
+#ifdef BLOCH_VERIF
+    static std::function<double()> g_verifDraw;
+    void QasmSimulator::verifSetDrawSource(std::function<double()> f) { g_verifDraw = std::move(f); }
+    void QasmSimulator::verifSeed(unsigned long long seed) {
+        rng.seed(static_cast<std::mt19937::result_type>(seed));
+    }
+#endif
 
     int QasmSimulator::allocateQubit() {
         // Grow the state by a factor of two, keeping existing amplitudes
@@ -207,7 +214,14 @@ namespace bloch::runtime {
                 p1 += std::norm(m_state[i]);
         std::uniform_real_distribution<double> dist(0.0, 1.0);
         double r = dist(rng);
+#ifdef BLOCH_VERIF
+        if (g_verifDraw)
+            r = g_verifDraw();
+#endif
         int res = r < p1 ? 1 : 0;
+#ifdef BLOCH_VERIF
+        m_verifOutcomes.push_back({'m', q, res, p1, r});
+#endif
         double norm = std::sqrt(res ? p1 : 1 - p1);
         for (size_t i = 0; i < m_state.size(); ++i) {
             if (((i & bit) ? 1 : 0) != res)
